@@ -539,13 +539,18 @@ func init() {
 			c.Input("a", aText)
 			c.Input("b", bText)
 			c.Input("options", o.Name)
-			for _, bin := range []Binary{BinV2, BinTop} {
-				res := RunCLI(c, bin, append(cliFlags(o), "a.json", "b.json"), "", map[string]string{"a.json": aText, "b.json": bText})
+			for _, bin := range []Binary{BinV2, BinTop, BinTopV1} {
+				flags := cliFlags(o)
+				if bin.V1 && len(o.Keys) > 0 {
+					flags = append([]string{"-set"}, flags...) // v1 reads keyed sets under -set only
+				}
+				c.Feature("cli_binary:" + bin.Name)
+				res := RunCLI(c, bin, append(append([]string{}, flags...), "a.json", "b.json"), "", map[string]string{"a.json": aText, "b.json": bText})
 				if res.Status > 1 {
 					c.Violation(fmt.Sprintf("%s diff exited %d", bin.Name, res.Status), map[string]any{"stderr": res.Stderr})
 					return
 				}
-				res2 := RunCLI(c, bin, append(cliFlags(o), "-p", "p.diff", "a.json"), "", map[string]string{"p.diff": res.Stdout})
+				res2 := RunCLI(c, bin, append(append([]string{}, flags...), "-p", "p.diff", "a.json"), "", map[string]string{"p.diff": res.Stdout})
 				c.Feature("cli_round_trips")
 				if res2.Status != 0 {
 					c.Violation(fmt.Sprintf("%s -p exited %d on the diff the same binary printed", bin.Name, res2.Status), map[string]any{"diff": res.Stdout, "stderr": res2.Stderr})
